@@ -82,6 +82,16 @@ def grid_correspondence(res, stats, grids):
             blocks.append(meanvar_block(cid, carrier, times, nodes))
             expect[str(cid)] = ("meanvar", carrier, mn, va, replay)
             cid += 1
+        # the same function on a synthetic grid over the same nodes/timepoints (mass at every timepoint,
+        # including time 0, which real posteriors of internal nodes never have)
+        synth = post.clone_with_new_data(grid_data=rng.uniform(0.0, 1.0, size=post.grid_data.shape) ** 3, fixed_data=np.nan)
+        snodes = [(float(ts.nodes_time[u]), None) if u not in nonfixed else (0.0, np.asarray(synth[u], dtype=float))
+                  for u in range(ts.num_nodes)]
+        smn, sva = DiscreteTimeMethod.mean_var(ts, synth)
+        for carrier in ("rat", "float"):
+            blocks.append(meanvar_block(cid, carrier, times, snodes))
+            expect[str(cid)] = ("meanvar", carrier, smn, sva, replay)
+            cid += 1
         # to_probabilities on an un-normalised copy of the real grid
         raw = post.grid_data * rng.uniform(0.1, 50.0, size=(post.grid_data.shape[0], 1))
         clone = post.clone_with_new_data(grid_data=raw.copy(), fixed_data=np.nan)
